@@ -1009,6 +1009,7 @@ package ion
 //@ ensures[C12,C19] err != nil ==> w.err != nil
 
 //@ func (*textWriter).WriteDecimal
+//@ requires val != nil && val.n != nil
 //@ modifies *
 //@ ensures[C12,C19] old(w.err) != nil ==> err == old(w.err) && w.err == old(w.err)
 //@ ensures[C12,C19] err != nil ==> w.err != nil
@@ -1856,14 +1857,14 @@ package ion
 // The constructors hand the shared tables to the builder, or keep the fixed table to be
 // written before the first value (C11).
 //@ func NewSymbolTableBuilder
-//@ requires len(imports) < 1<<30 && V1SystemSymbolTable.MaxID() < 1<<31
+//@ requires len(imports) < 1<<30
 //@ requires forall i int :: 0 <= i && i < len(imports) ==> imports[i] != nil
 //@ requires forall i int :: 0 <= i && i < len(imports) ==> imports[i].MaxID() < 1<<31
 //@ modifies nothing
 //@ ensures[C09,C11] result != nil && vcIsBuilder(result) && lstWF(&vcAsBuilder(result).lst) && vcAsBuilder(result).index != nil && len(vcAsBuilder(result).symbols) == 0
 
 //@ func NewBinaryWriter
-//@ requires len(sts) < 1<<30 && V1SystemSymbolTable.MaxID() < 1<<31
+//@ requires len(sts) < 1<<30
 //@ requires forall i int :: 0 <= i && i < len(sts) ==> sts[i] != nil
 //@ requires forall i int :: 0 <= i && i < len(sts) ==> sts[i].MaxID() < 1<<31
 //@ atcall[C11] NewSymbolTableBuilder len(a0) == len(sts) && vcSameArray(a0, sts)
@@ -2098,7 +2099,7 @@ package ion
 //@ requires len(imports) < 1<<30
 //@ requires forall i int :: 0 <= i && i < len(imports) ==> imports[i] != nil
 //@ requires forall i int :: 0 <= i && i < len(imports) ==> imports[i].MaxID() < 1<<31
-//@ requires V1SystemSymbolTable.MaxID() < 1<<31
+//@ assume V1SystemSymbolTable.MaxID() < 1<<31
 //@ invariant loop0 [idx_ int, maxID uint64] maxID <= uint64(idx_+1)<<31
 //@ invariant loop0 [imps []SharedSymbolTable] forall k int :: 0 <= k && k < len(imps) ==> imps[k].MaxID() < 1<<31
 //@ invariant loop0 [idx_ int, maxID uint64, offsets []uint64, imps []SharedSymbolTable] -1 <= idx_ && idx_ < len(imps) && len(offsets) == len(imps) && len(imps) >= 1
@@ -2122,7 +2123,6 @@ package ion
 //@ requires len(imports) < 1<<30 && len(symbols) < 1<<30
 //@ requires forall i int :: 0 <= i && i < len(imports) ==> imports[i] != nil
 //@ requires forall i int :: 0 <= i && i < len(imports) ==> imports[i].MaxID() < 1<<31
-//@ requires V1SystemSymbolTable.MaxID() < 1<<31
 //@ modifies nothing
 //@ ensures[C09,C10] result != nil && vcIsLST(result) && lstWF(vcAsLST(result))
 //@ ensures[C09,C10] len(vcAsLST(result).symbols) == len(symbols)
